@@ -45,8 +45,9 @@ def worker(args):
                     out['error'] = 'solver unknown on a weight query'
             out['checked'] += 1
         out.update(stmts=M.stats['stmts'], queries=M.nq + qs, solver_s=round(M.qtime + ss, 1))
-    except mirx.Unsupported as e:
-        out['error'] = 'unsupported: ' + str(e)
+    except Exception as e:
+        import traceback
+        out['error'] = ('unsupported: ' + str(e)) if isinstance(e, mirx.Unsupported) else ('internal error in the check machinery: ' + repr(e) + ' | ' + traceback.format_exc()[-700:])
     out['wall'] = round(time.time() - t0, 1)
     return out
 
